@@ -793,8 +793,10 @@ def packDef (ps : Nat) (d : Def) (v : Val) : Option Bytes := packOne ps d v
 mutual
 /-- constructs the model mirrors faithfully (everything else: the driver answers "unmodelled") -/
 def Field.modelled (ps : Nat) : Field → Bool
-  | .raw .. => true
-  | .bits .. => true
+  -- with a `psize` the code does not map, `l`/`L`/`P` are sized natively (8) but decoded with the
+  -- standard-size letter (`<l` = 4 bytes, `<P` invalid): outside the fragment
+  | .raw _ t _ _ => !(t.isPtr && !ptrMapped ps)
+  | .bits t _ _ _ => !(t.isPtr && !ptrMapped ps)
   | .var _ t _ => t.varOK
   | .cnt _ t _ ct => t.varOK && (ct == .b || ct == .B || ct == .h || ct == .H || ct == .i || ct == .I)
   | .bound _ t _ _ => t.varOK
